@@ -12,19 +12,11 @@ def cost(spec):
     return (o["burnin"] + o["num_iters"]) * o["num_particles"] * n * o["num_chains"] * (o["grid_size"] / 11.0)
 
 
-def task(seed):
-    spec = wp.spec_from_seed(seed, boundary=True)
-    # keep a single run inside the budget: the cross product is sampled, not the product of all maxima
-    while cost(spec) > 20000:
-        o = spec["options"]
-        if o["num_iters"] > 2:
-            o["num_iters"] = max(2, o["num_iters"] // 3)
-        elif o["num_particles"] > 3:
-            o["num_particles"] = 3
-        elif o["grid_size"] > 11:
-            o["grid_size"] = 11
-        else:
-            break
+def evaluate(spec):
+    """Run one simulated `phyclone run` described completely by `spec` and judge it.  Returns (problems, info)."""
+    spec = dict(spec)
+    if spec.get("max_time") == "inf":
+        spec["max_time"] = float("inf")
     spec["draw_budget"] = 5000000  # per generator; a run that needs more is reported as a hang (StepBudgetExceeded)
     h = wp.run_pipeline(spec)
     problems = []
@@ -54,9 +46,114 @@ def task(seed):
         if a["wellformed"]:
             problems.append((dict(klass, sub="entry_ill_formed", code=a["wellformed"][0][0]), a["wellformed"][0][1]))
             break
-    return {"seed": seed, "problems": problems[:2], "entries": n_entries, "iters": h["iter_calls"], "opts": o,
-            "n_mut": len(set(r["mutation_id"] for r in spec["inputs"]["rows"])), "clustered": spec["inputs"]["cluster_rows"] is not None,
-            "stats": h["stats"], "via_cli": spec["via_cli"], "sim_time": h.get("sim_time", 0.0), "clock_reads": sum(h.get("clock_reads", []))}
+    return problems[:2], {"entries": n_entries, "iters": h["iter_calls"], "stats": h["stats"], "sim_time": h.get("sim_time", 0.0),
+                          "clock_reads": sum(h.get("clock_reads", []))}
+
+
+def jsonable_spec(spec):
+    s = {k: v for k, v in spec.items() if k != "draw_budget"}
+    if isinstance(s.get("max_time"), float) and math.isinf(s["max_time"]):
+        s["max_time"] = "inf"
+    return s
+
+
+def minimise(spec, key, budget_s=60):
+    """Greedy descent on the whole run description while the same violation class persists: fewer chains, iterations,
+    particles, mutations, samples; features switched off; the clock script and schedule simplified."""
+    import copy
+    import time
+
+    t0 = time.time()
+    cur = copy.deepcopy(spec)
+
+    def fails(sp):
+        try:
+            probs, _ = evaluate(sp)
+        except Exception:
+            return False
+        return any(k == key for k, _ in probs)
+
+    def variants(sp):
+        o = sp["options"]
+        for name, vals in (("num_chains", [1]), ("num_iters", [1, 2]), ("burnin", [1]), ("num_particles", [1, 2]), ("thin", [1]),
+                           ("subtree_update_prob", [0.0]), ("concentration_update", [False]), ("outlier_prob", [0.0]), ("grid_size", [11]),
+                           ("num_samples_data_point", [1, 0]), ("num_samples_prune_regraph", [1, 0]), ("resample_threshold", [0.5]),
+                           ("concentration_value", [1.0]), ("density", ["binomial"])):
+            for v in vals:
+                if o.get(name) != v:
+                    t = copy.deepcopy(sp)
+                    t["options"][name] = v
+                    if name == "num_chains":
+                        t["schedule"] = {}
+                    yield t
+        if sp.get("max_time") not in ("inf", float("inf")):
+            t = copy.deepcopy(sp)
+            t["max_time"] = "inf"
+            t["deltas"] = [0.0]
+            yield t
+        if sp.get("via_cli"):
+            t = copy.deepcopy(sp)
+            t["via_cli"] = False
+            yield t
+        inp = sp["inputs"]
+        muts = sorted(set(r_["mutation_id"] for r_ in inp["rows"]))
+        if len(muts) > 1:
+            for m in muts:
+                t = copy.deepcopy(sp)
+                t["inputs"]["rows"] = [r_ for r_ in inp["rows"] if r_["mutation_id"] != m]
+                if inp.get("cluster_rows"):
+                    t["inputs"]["cluster_rows"] = [r_ for r_ in inp["cluster_rows"] if r_["mutation_id"] != m]
+                yield t
+        if len(inp["samples"]) > 1:
+            keep = inp["samples"][0]
+            t = copy.deepcopy(sp)
+            t["inputs"]["samples"] = [keep]
+            t["inputs"]["rows"] = [r_ for r_ in inp["rows"] if r_["sample_id"] == keep]
+            if inp.get("cluster_rows"):
+                t["inputs"]["cluster_rows"] = [r_ for r_ in inp["cluster_rows"] if r_["sample_id"] == keep]
+            yield t
+        if inp.get("cluster_rows"):
+            t = copy.deepcopy(sp)
+            t["inputs"]["cluster_rows"] = None
+            yield t
+
+    changed = True
+    while changed and time.time() - t0 < budget_s:
+        changed = False
+        for t in variants(cur):
+            if time.time() - t0 > budget_s:
+                break
+            if fails(t):
+                cur = t
+                changed = True
+                break
+    return cur
+
+
+def task(seed):
+    spec = wp.spec_from_seed(seed, boundary=True)
+    # keep a single run inside the budget: the cross product is sampled, not the product of all maxima
+    while cost(spec) > 20000:
+        o = spec["options"]
+        if o["num_iters"] > 2:
+            o["num_iters"] = max(2, o["num_iters"] // 3)
+        elif o["num_particles"] > 3:
+            o["num_particles"] = 3
+        elif o["grid_size"] > 11:
+            o["grid_size"] = 11
+        else:
+            break
+    problems, info = evaluate(spec)
+    o = spec["options"]
+    out = {"seed": seed, "problems": [], "opts": o, "n_mut": len(set(r["mutation_id"] for r in spec["inputs"]["rows"])),
+           "clustered": spec["inputs"]["cluster_rows"] is not None, "via_cli": spec["via_cli"]}
+    out.update(info)
+    for key, detail in problems:
+        smin = minimise(spec, key)
+        p2, _ = evaluate(smin)
+        d2 = [d for k, d in p2 if k == key]
+        out["problems"].append((key, (d2[0] if d2 else detail), jsonable_spec(smin)))
+    return out
 
 
 def run(ctx):
@@ -84,8 +181,10 @@ def run(ctx):
         if o["num_chains"] > 1:
             ctx.probe("multi_chain")
         ctx.merge_counts("fault_kinds_fired", {"sched." + k: v for k, v in out["stats"].items()})
-        for key, detail in out["problems"]:
-            ctx.violation(key, detail + " | run seed %d options %r n_mut=%d" % (out["seed"], o, out["n_mut"]), {"seed": out["seed"], "key": key})
+        for key, detail, smin in out["problems"]:
+            nm = len(set(r_["mutation_id"] for r_ in smin["inputs"]["rows"]))
+            ctx.violation(key, detail + " | minimised run: %d mutation(s), %d sample(s), options %r, max_time %r (found at run seed %d)" % (
+                nm, len(smin["inputs"]["samples"]), smin["options"], smin.get("max_time"), out["seed"]), {"spec": smin, "key": key, "seed": out["seed"]})
     ctx.cov["evaluations"] = len(done)
     ctx.cov["distinct_nontrivial"] = len(sig)
     ctx.cov["runs_skipped_for_time"] = len(res) - len(done)
@@ -108,8 +207,8 @@ def run(ctx):
 
 def replay(ctx, obj):
     wp.warm_up()
-    out = task(obj["seed"])
-    for key, detail in out["problems"]:
+    problems, info = evaluate(obj["spec"])
+    for key, detail in problems:
         if key == obj["key"]:
             ctx.violation(key, detail, obj)
     ctx.cov["evaluations"] = 1
